@@ -1,12 +1,18 @@
 import RumaModel.Proto
 import RumaModel.Model.Endpoint
+import RumaModel.Model.EndpointGlue
+import RumaModel.Model.Canonical
+import RumaModel.Lemmas.EndpointForm
 import RumaModel.Spec.Endpoint
 import RumaModel.Generated.C16
 /-!
   Line-protocol driver for C16. Ops starting with `c16.spec.` are answered by `Spec/Endpoint.lean`
-  only; `c16.rt.resp`, `c16.rt.synresp`, `c16.rt.err` are oracle-only ops of the harness (the
-  macro-generated glue is not modelled) and are answered `ok`; everything else is answered by
-  `Model/Endpoint.lean`. Endpoint and history indices refer to `Generated/C16.lean`.
+  only; `c16.rt.resp`, `c16.rt.synresp`, `c16.rt.err` are oracle-only ops of the harness and are
+  answered `ok`; `c16.glue.*` are answered by `Model/EndpointGlue.lean` instantiated with the
+  reference form codec (`refForm`, proved lawful), `Canonical.encode` as the JSON writer, the JSON
+  reader given on the request line (`j <tokens>` = the text of exactly this value) and the length
+  bound of `http::Uri`; everything else by `Model/Endpoint.lean`. Endpoint, history and glue
+  descriptor indices refer to `Generated/C16.lean`.
 -/
 namespace Ruma.Driver.C16
 open Ruma Ruma.Proto Ruma.Endpoint
@@ -187,6 +193,189 @@ def endpointAt (e : Nat) : Option (AuthScheme × VersionHistory) :=
   | some (_, _, a, hi) => (Generated.C16.histories[hi]?).map (a, ·)
   | none => none
 
+
+/-! ### The macro-generated glue -/
+
+section Glue
+open Ruma.Glue
+
+/-- The wire forms of a request or response value, by kind (`P Q A H B J R` groups). -/
+structure GV where
+  path : List Str := []
+  query : List (List Str) := []
+  queryAll : List (List (Str × Str)) := []
+  header : List (Option Str) := []
+  body : List (Option JVal) := []
+  whole : List JVal := []
+  raw : List Str := []
+
+def expectTok (tok : String) (ts : List String) : Option (List String) :=
+  match ts with
+  | t :: r => if t = tok then some r else none
+  | [] => none
+
+def parseCounted {α} (f : List String → Option (α × List String)) (ts : List String) :
+    Option (List α × List String) :=
+  match ts with
+  | t :: r => (natTok "a" t).bind (fun n => parseN f n r)
+  | [] => none
+
+def parseOptJson (ts : List String) : Option (Option JVal × List String) :=
+  match ts with
+  | "-" :: r => some (none, r)
+  | "+" :: r => (parseVal r).map (fun (v, r') => (some v, r'))
+  | _ => none
+
+def parseGV (ts : List String) : Option (GV × List String) := do
+  let r ← expectTok "P" ts
+  let (path, r) ← parseCounted parseStr r
+  let r ← expectTok "Q" r
+  let (query, r) ← parseCounted parseStrs r
+  let r ← expectTok "A" r
+  let (queryAll, r) ← parseCounted parsePairs r
+  let r ← expectTok "H" r
+  let (header, r) ← parseCounted parseOptStr r
+  let r ← expectTok "B" r
+  let (body, r) ← parseCounted parseOptJson r
+  let r ← expectTok "J" r
+  let (whole, r) ← parseCounted parseVal r
+  let r ← expectTok "R" r
+  let (raw, r) ← parseCounted parseStr r
+  pure (⟨path, query, queryAll, header, body, whole, raw⟩, r)
+
+def showCounted {α} (f : α → List String) (l : List α) : List String :=
+  ("a" ++ toString l.length) :: l.flatMap f
+
+def showGV (v : GV) : String :=
+  " ".intercalate (
+    ["P"] ++ showCounted (fun s => [strTok s]) v.path
+    ++ ["Q"] ++ showCounted (fun vs => showCounted (fun s => [strTok s]) vs) v.query
+    ++ ["A"] ++ showCounted (fun ps => showCounted (fun p => [strTok p.1, strTok p.2]) ps) v.queryAll
+    ++ ["H"] ++ showCounted (fun h => match h with | some s => [strTok s] | none => ["n"]) v.header
+    ++ ["B"] ++ showCounted (fun b => match b with | some j => "+" :: printVal j | none => ["-"]) v.body
+    ++ ["J"] ++ showCounted printVal v.whole
+    ++ ["R"] ++ showCounted (fun s => [strTok s]) v.raw)
+
+def leStr : Str → Str → Bool
+  | [], _ => true
+  | _ :: _, [] => false
+  | a :: as, b :: bs => decide (a < b) || (a == b && leStr as bs)
+
+def lePair (p q : Str × Str) : Bool := if p.1 = q.1 then leStr p.2 q.2 else leStr p.1 q.1
+
+def insertPair (p : Str × Str) : List (Str × Str) → List (Str × Str)
+  | [] => [p]
+  | q :: t => if lePair p q then p :: q :: t else q :: insertPair p t
+
+/-- Headers as a sorted multimap. -/
+def sortPairs (l : List (Str × Str)) : List (Str × Str) := l.foldr insertPair []
+
+def showHeaders (hs : Headers) : List String :=
+  showCounted (fun p : Str × Str => [strTok p.1, strTok p.2]) (sortPairs hs)
+
+def showIntoErr : IntoErr → String
+  | .removed _ => "err removed"
+  | .noUnstablePath => "err nopath"
+  | .needsAuth => "err needsauth"
+  | .headerValue | .json | .http => "err other"
+
+/-- `serde_json` for the sending side: the compact writer. -/
+def jsonOut : JsonCodec := ⟨fun v => some (Canonical.encode v), fun _ => none⟩
+
+/-- `http::Uri`: at most 65534 bytes (everything the model writes is URI-safe otherwise). -/
+def uriLib : HttpLib := ⟨fun u => decide (u.length ≤ 65534)⟩
+
+/-- The body of a received message: no bytes, the compact text of a JSON value, or bytes that are
+not JSON. The JSON reader of this line reads exactly that text (and `{}`). -/
+inductive BodyTok where
+  | empty
+  | json (j : JVal)
+  | garbage (b : Str)
+
+def parseBodyTok (ts : List String) : Option (BodyTok × List String) :=
+  match ts with
+  | "e" :: r => some (.empty, r)
+  | "j" :: r => (parseVal r).map (fun (v, r') => (.json v, r'))
+  | "g" :: t :: r => (parseStrTok t).map (fun b => (.garbage b, r))
+  | _ => none
+
+def BodyTok.bytes : BodyTok → Str
+  | .empty => []
+  | .json j => Canonical.encode j
+  | .garbage b => b
+
+def jsonIn (body : BodyTok) : JsonCodec :=
+  ⟨fun v => some (Canonical.encode v),
+   fun b =>
+    match body with
+    | .json j => if b = Canonical.encode j then some j else if b = bs "{}" then some (.obj []) else none
+    | _ => if b = bs "{}" then some (.obj []) else none⟩
+
+def glueReqAnswer (d : ReqDesc) (v : GV) (sat : SendAccessToken) (vs : List Nat) : String :=
+  let rv : ReqVal := ⟨v.path, v.query, v.queryAll, v.header, v.body, v.whole, v.raw⟩
+  match tryIntoHttpRequest refForm jsonOut uriLib d rv (bs "https://example.org") sat vs with
+  | .ok m =>
+    " ".intercalate (["ok", strTok m.method, strTok m.uri] ++ showHeaders m.headers ++ [strTok m.body])
+  | .err e => showIntoErr e
+  | .panic => "panic"
+  | .illTyped => "bad-op"
+
+def glueRespAnswer (d : RespDesc) (v : GV) : String :=
+  let rv : RespVal := ⟨v.header, v.body, v.whole, v.raw⟩
+  match tryIntoHttpResponse jsonOut d rv with
+  | .ok r => " ".intercalate (["ok", "i" ++ toString r.status] ++ showHeaders r.headers ++ [strTok r.body])
+  | .err e => showIntoErr e
+  | .panic => "panic"
+  | .illTyped => "bad-op"
+
+def glueInAnswer (d : ReqDesc) (a : Arrived) (body : BodyTok) : String :=
+  match tryFromHttpRequest refForm (jsonIn body) d a with
+  | .ok v => "ok " ++ showGV ⟨v.path, v.query, v.queryAll, v.header, v.body, v.newtype, v.raw⟩
+  | .methodMismatch => "err method"
+  | .deser => "err deser"
+  | .outside => "outside-model"
+
+def glueRinAnswer (d : RespDesc) (r : HttpResponse) (body : BodyTok) : String :=
+  match tryFromHttpResponse (jsonIn body) d r with
+  | .ok v => "ok " ++ showGV ⟨[], [], [], v.header, v.body, v.whole, v.raw⟩
+  | .server => "err server"
+  | .deser => "err deser"
+  | .outside => "outside-model"
+
+def handleGlue (toks : List String) : Option String :=
+  match toks with
+  | "c16.glue.req" :: g :: rest => do
+    let d ← g.toNat?.bind (Generated.C16.glueReq[·]?)
+    let (vs, r) ← parseVersions rest
+    match r with
+    | k :: tok :: r =>
+      let t ← parseStrTok tok
+      let sat ← k.toNat?.bind (satOf · t)
+      let (v, r) ← parseGV r
+      if r.isEmpty then some (glueReqAnswer d v sat vs) else none
+    | _ => none
+  | "c16.glue.resp" :: g :: rest => do
+    let d ← g.toNat?.bind (Generated.C16.glueResp[·]?)
+    let (v, r) ← parseGV rest
+    if r.isEmpty then some (glueRespAnswer d v) else none
+  | "c16.glue.in" :: g :: rest => do
+    let d ← g.toNat?.bind (Generated.C16.glueReq[·]?)
+    let (method, r) ← parseStr rest
+    let (args, r) ← parseStrs r
+    let (query, r) ← parseStr r
+    let (headers, r) ← parsePairs r
+    let (body, r) ← parseBodyTok r
+    if r.isEmpty then some (glueInAnswer d ⟨method, query, headers, body.bytes, args⟩ body) else none
+  | "c16.glue.rin" :: g :: rest => do
+    let d ← g.toNat?.bind (Generated.C16.glueResp[·]?)
+    let (status, r) ← parseNatI rest
+    let (headers, r) ← parsePairs r
+    let (body, r) ← parseBodyTok r
+    if r.isEmpty then some (glueRinAnswer d ⟨status, headers, body.bytes⟩ body) else none
+  | _ => none
+
+end Glue
+
 def handle (toks : List String) : String :=
   match toks with
   | ["c16.spec.sweep", hidx, start, stride, count] =>
@@ -294,6 +483,8 @@ def handle (toks : List String) : String :=
         | _, _ => "bad-op"
       | _, _ => "bad-op"
     | _, _ => "bad-op"
+  | "c16.glue.req" :: _ | "c16.glue.resp" :: _ | "c16.glue.in" :: _ | "c16.glue.rin" :: _ =>
+    (handleGlue toks).getD "bad-op"
   | "c16.rt.resp" :: _ => "ok"
   | "c16.rt.synresp" :: _ => "ok"
   | "c16.rt.err" :: _ => "ok"
